@@ -372,3 +372,6 @@ if {params['version']!r} == 1 and list(np.lexsort(np.c_[-h['col'], h['row'], h['
 not_reproduced()
 """
     return None
+
+# level text addendum (cases added after the seeded-change rounds)
+LEVEL_TEXT = LEVEL_TEXT + ' Also: the same request repeated gives the same geometry (no state carried between calls).'
